@@ -78,6 +78,9 @@ def r1_r2(prog, rep):
 
 
 def r3(prog, rep):
+    from .. import sides
+    wall_funcs = ("MeshRegion.addPointAtWallToContours", "_find_intersection", "MeshRegion.calcPenaltyMask")
+    sides.check(prog, rep, "R4", lambda f: f.module.rel == "hypnotoad/core/mesh.py" and f.qualname in wall_funcs, "wall-point placement (core/mesh.py)")
     # the crossing finder the wall point comes from: every wall edge is tested, in exactly one of
     # the two slope classes, over its whole closed extent (rule instances of C20.R1-R3)
     from ..report import Premise
